@@ -407,3 +407,35 @@ Definition check_C11_fails (m : list (list F64.t)) (bg : list F64.t) (sf : list 
 Definition check_C11 (m : list (list F64.t)) (bg : list F64.t) (sf : list F64.t)
     (pv br rt : list (F64.t * F64.t)) : bool :=
   match check_C11_fails m bg sf pv br rt with [] => true | _ => false end.
+
+(* ---------- the literal reading of "exact probability": a finite sum over all words ----------
+   a word is a list of column indices, one per row; its weight is the product of the
+   background weights of its symbols; P(S >= t) is the total weight of the words whose
+   score is defined (no -inf cell) and at least t *)
+Fixpoint all_words (K M : nat) : list (list nat) :=
+  match M with
+  | O => [[]]
+  | S M' => flat_map (fun a => map (cons a) (all_words K M')) (seq 0 K)
+  end.
+
+Fixpoint word_weight (bg : list Q) (w : list nat) : Q :=
+  match w with [] => 1 | a :: w' => nth a bg 0 * word_weight bg w' end.
+
+Definition word_term (m : list (list (cell Q))) (bg : list Q) (t : Q) (w : list nat) : Q :=
+  match word_S m w with
+  | Some s => if Qle_bool t s then word_weight bg w else 0
+  | None => 0
+  end.
+
+Definition tail_words (m : list (list (cell Q))) (bg : list Q) (t : Q) : Q :=
+  Qsum (map (word_term m bg t) (all_words (length bg) (length m))).
+
+(* the same for the discretised score D *)
+Definition word_termD (data : list (list Z)) (bg : list Q) (k : Z) (w : list nat) : Q :=
+  match word_D data w with
+  | Some d => if (k <=? d)%Z then word_weight bg w else 0
+  | None => 0
+  end.
+
+Definition tailD_words (data : list (list Z)) (bg : list Q) (k : Z) : Q :=
+  Qsum (map (word_termD data bg k) (all_words (length bg) (length data))).
